@@ -1073,3 +1073,152 @@ package grpctunnel
 //@   locks c.mu, str.ch.mu, str.metaMu
 //@   assigns *
 //@   nopanic[C09]
+
+// ----- client: starting RPCs -----------------------------------------------------------------
+
+//@ func (*tunnelChannel).newStream
+//@   requires ctx != nil
+//@   ghost sendErr error = nil
+//@   at aftercall Send#1
+//@     ghost sendErr = result
+//@   at call toProto#1
+//@     assert[C02] @reqmd arg0 == md
+//@   at call Send#1
+//@     assert[C08]     @underlock held(c.streamCreation)
+//@     assert[C08,C13] @newstream arg0.StreamId == str.streamID && arg0.Frame is *tunnelpb.ClientToServer_NewStream
+//@     assert[C08,C11,C13] @body as(arg0.Frame, *tunnelpb.ClientToServer_NewStream).NewStream.MethodName == methodName && as(arg0.Frame, *tunnelpb.ClientToServer_NewStream).NewStream.ProtocolRevision == c.useRevision && as(arg0.Frame, *tunnelpb.ClientToServer_NewStream).NewStream.InitialWindowSize == 65536
+//@     assert[C08]     @firstframe count("carrierSend") == 0 && count("go") == 0
+//@   at call removeStream#1
+//@     assert[C14] @undo sendErr != nil && arg1 == str.streamID
+//@   at go#1
+//@     assert[C08,C14] @announced sendErr == nil && count("carrierSend") == 1
+//@   ensures[C08]     @oneframe count("carrierSend") <= 1
+//@   ensures[C14]     @watcher  (result1 == nil <==> count("go") == 1) && count("go") <= 1
+//@   ensures[C08,C14] @failed   result1 != nil ==> result0 == nil
+//@   locks c.streamCreation, c.mu
+//@   assigns *
+
+// Watcher: ends the stream locally when its context ends.
+//@ func (*tunnelChannel).newStream$1
+//@   requires str != nil
+//@   at call cancelStream#1
+//@     assert[C04,C07,C14] @afterdone isClosed(doneOf(str.ctx))
+//@   ensures[C04,C14] @onewait count("blocking") == 1 && count("call:cancelStream") == 1
+//@   locks str.ch.mu, str.metaMu
+//@   assigns *
+
+//@ func (*tunnelChannel).NewStream
+//@   inline
+
+//@ func newTunnelChannel
+//@   requires stream != nil && opts != nil
+//@   at go#1
+//@     assert[C04,C11] @fresh c.useRevision == 0 && c.settings == nil && !isClosed(c.awaitSettings) && c.streams != nil && !c.finished && c.lastStreamID == 0 && !c.streamCreated
+//@     assert[C17]     @tunnelmd c.tunnelMetadata == tunnelMetadata && c.stream == stream && c.serverSendsSettings == serverSendsSettings && c.tunnelOpts == opts
+//@   ensures[C04] @nonnil result != nil
+//@   ensures[C14] @oneloop count("go") == 1
+//@   assigns *
+
+//@ func (*tunnelChannel).Invoke
+//@   requires ctx != nil
+//@   ghost err1 error = nil
+//@   ghost err2 error = nil
+//@   at aftercall RecvMsg#1
+//@     ghost err1 = result
+//@   at aftercall RecvMsg#2
+//@     ghost err2 = result
+//@   at call newStream#1
+//@     assert[C16] @unary !arg2 && !arg3 && arg4 == methodName
+//@   at call RecvMsg#2
+//@     assert[C16] @extra err1 == nil
+//@   at call cancel#1
+//@     assert[C16] @toomany err2 == nil
+//@   ensures[C16] @success result == nil ==> count("call:RecvMsg") == 2 && err1 == nil && err2 != nil
+//@   ensures[C16] @nomessage count("call:RecvMsg") >= 1 && err1 != nil ==> result == err1
+//@   ensures[C16] @twomessages count("call:RecvMsg") == 2 && err2 == nil ==> isStatus(result, codes.Internal)
+//@   locks c.streamCreation, c.mu, str.writeMu, str.readMu, str.ch.mu, str.metaMu
+//@   assigns *
+
+// The exported stream methods as seen by Invoke (their own contracts are above).
+
+// ---------------------------------------------------------------------------
+// handler.go: reverse-tunnel registry (C12)
+// ---------------------------------------------------------------------------
+
+//@ type reverseChannels
+//@   field avail guarded_by mu signal closedby mu
+//@   field chans, idx guarded_by mu
+//@   field mu monitor
+//@   invariant[C12,C09] mu : @latch   avail != nil && (len(chans) > 0 <==> isClosed(avail))
+//@   invariant[C12,C09] mu : @cursor  idx >= 0 && idx <= 1099511627776
+//@   invariant[C12,C09] mu : @entries forall x in chans :: x.ch != nil
+
+//@ func newReverseChannels
+//@   assigns nothing
+//@   ensures fresh(result)
+
+//@ func (*reverseChannels).add
+//@   requires ch != nil
+//@   locks c.mu
+//@   assigns nothing
+//@   ensures[C12] @appended len(c.chans) == len(old(c.chans)) + 1 && c.chans[len(old(c.chans))].ch == ch && c.chans[len(old(c.chans))].key == key
+//@   ensures[C12] @kept     forall i int :: 0 <= i && i < len(old(c.chans)) ==> c.chans[i].ch == old(c.chans[i].ch) && c.chans[i].key == old(c.chans[i].key)
+//@   ensures[C12] @ready    isClosed(c.avail)
+//@   ensures[C12] @cursor   c.idx == old(c.idx)
+//@   nopanic[C09,C12]
+
+//@ func (*reverseChannels).remove
+//@   locks c.mu
+//@   assigns nothing
+//@   ghost at int = -1
+//@   at return#1
+//@     ghost at = i
+//@   loop 1 invariant[C12] @notfound forall j int :: 0 <= j && j <= rangeindex ==> c.chans[j].ch != ch
+//@   loop 1 invariant[C12] @intact   c.chans == old(c.chans) && c.avail == old(c.avail) && c.idx == old(c.idx) && held(c.mu) && monitor(c.mu) && rangeindex < len(c.chans)
+//@   at return#1
+//@     assert[C12] @first    0 <= i && i < len(old(c.chans)) && old(c.chans[i].ch) == ch && forall j int :: 0 <= j && j < i ==> old(c.chans[j].ch) != ch
+//@     assert[C12] @key      result0 == old(c.chans[i].key) && result1
+//@     assert[C12] @shrunk   len(c.chans) == len(old(c.chans)) - 1
+//@     assert[C12] @before   forall j int :: 0 <= j && j < i ==> c.chans[j].ch == old(c.chans[j].ch) && c.chans[j].key == old(c.chans[j].key)
+//@     assert[C12] @after    forall j int :: i <= j && j < len(c.chans) ==> c.chans[j].ch == old(c.chans[j+1].ch) && c.chans[j].key == old(c.chans[j+1].key)
+//@     assert[C12] @rearm    len(c.chans) == 0 ==> !isClosed(c.avail)
+//@   at return#2
+//@     assert[C12] @absent   !result1 && result0 == nil && c.chans == old(c.chans) && c.avail == old(c.avail) && forall j int :: 0 <= j && j < len(c.chans) ==> c.chans[j].ch != ch
+//@   ensures[C12] @cursor c.idx == old(c.idx)
+//@   nopanic[C09,C12]
+
+//@ func (*reverseChannels).pick
+//@   locks c.mu
+//@   assigns nothing
+//@   ensures[C12] @nilreg  c == nil ==> result == nil
+//@   ensures[C12] @empty   c != nil && len(old(c.chans)) == 0 ==> result == nil && c.idx == old(c.idx)
+//@   ensures[C12] @next    c != nil && len(old(c.chans)) > 0 ==> c.idx == ite(old(c.idx) + 1 < len(old(c.chans)), old(c.idx) + 1, 0) && id(result) == c.chans[c.idx].ch && result != nil && result is *tunnelChannel
+//@   ensures[C12] @readonly c != nil ==> c.chans == old(c.chans) && c.avail == old(c.avail)
+//@   effects nilrecv-ok
+//@   nopanic[C09,C12]
+
+//@ func (*reverseChannels).ready
+//@   locks c.mu
+//@   assigns nothing
+//@   ensures[C12] @nonempty result <==> len(old(c.chans)) > 0
+//@   ensures[C12] @readonly c.chans == old(c.chans) && c.avail == old(c.avail) && c.idx == old(c.idx)
+//@   nopanic[C09]
+
+//@ func (*reverseChannels).allChans
+//@   locks c.mu
+//@   assigns nothing
+//@   loop 1 invariant[C12] @copied  (forall j int :: 0 <= j && j <= rangeindex ==> id(cp[j]) == c.chans[j].ch) && len(cp) == len(c.chans) && c.chans == old(c.chans) && held(c.mu) && monitor(c.mu) && rangeindex < len(c.chans)
+//@   ensures[C12] @snapshot len(result) == len(old(c.chans)) && forall j int :: 0 <= j && j < len(result) ==> id(result[j]) == old(c.chans[j].ch)
+//@   ensures[C12] @readonly c.chans == old(c.chans) && c.avail == old(c.avail) && c.idx == old(c.idx)
+//@   nopanic[C09]
+
+//@ func (*reverseChannels).waitForReady
+//@   requires ctx != nil
+//@   locks c.mu
+//@   assigns nothing
+//@   ghost observed ghostint = 0
+//@   at aftercall Unlock#1
+//@     ghost observed = id(avail)
+//@   ensures[C12] @latched result == nil ==> isClosed(observed)
+//@   ensures[C04,C12] @ctx result != nil ==> isClosed(doneOf(ctx))
+//@   nopanic[C09]
